@@ -298,3 +298,30 @@ NEUTRALS = [
     M("config keys reordered", _A, "\"eps\": self.eps,\n            \"dtype\": _dtype_to_name(self.dtype),", "\"dtype\": _dtype_to_name(self.dtype),\n            \"eps\": self.eps,"),
     M("empty-dict guard via len", _U, "if isinstance(value, dict) and value:", "if isinstance(value, dict) and len(value) > 0:"),
 ]
+
+# functions the property is anchored in (auto-mutant sweep of the thorough tier)
+ANCHORS = [
+    'aspire.utils:encode_for_hdf5',
+    'aspire.utils:decode_from_hdf5',
+    'aspire.utils:encode_samples',
+    'aspire.utils:decode_samples',
+    'aspire.utils:encode_dtype',
+    'aspire.utils:decode_dtype',
+    'aspire.utils:recursively_save_to_h5_file',
+    'aspire.utils:load_from_h5_file',
+    'aspire.samples:BaseSamples.to_dict',
+    'aspire.samples:BaseSamples.from_dict',
+    'aspire.history:SMCHistory.save',
+    'aspire.history:SMCHistory.load',
+    'aspire.transforms:BaseTransform.save',
+    'aspire.transforms:BaseTransform.load',
+    'aspire.transforms:CompositeTransform.config_dict',
+    'aspire.transforms:AffineTransform._save_state',
+    'aspire.transforms:AffineTransform._load_state',
+    'aspire.flows.torch.flows:BaseTorchFlow.save',
+    'aspire.flows.torch.flows:BaseTorchFlow.load',
+    'aspire.flows.jax.flows:FlowJax.save',
+    'aspire.flows.jax.flows:FlowJax.load',
+    'aspire.aspire:Aspire.config_dict',
+    'aspire.aspire:Aspire._build_aspire_from_file',
+]
